@@ -839,14 +839,10 @@ def i_CMPXCHG(i, fmap):
     fmap[cf] = carry
     fmap[of] = overflow
     fmap[pf] = parity8(x[0:8])
-    if dst.size == 32 and dst._is_reg:
-        x = fmap(src).zeroextend(64)
-        v = fmap(dst).zeroextend(64)
-        dst = dst.x
-        acc = rax
-    else:
-        x = fmap(src)
-        v = fmap(dst)
+    x = fmap(src)
+    # 32-bits register writes clear the upper half of the 64-bits register:
+    dst, x = _r32_zx64(dst, x)
+    acc, v = _r32_zx64(acc, v)
     fmap[dst] = tst(t, x, fmap(dst))
     fmap[acc] = tst(t, fmap(acc), v)
 
